@@ -479,6 +479,93 @@ def gen_nested(rng, tier):
     return chunk("nst", ops, 400)
 
 
+# ------------------------------------------------------------------ tables (round 2)
+def tbl_op(sep, align, ncol, colnames, rownames, rows):
+    items = []
+    if colnames is not None:
+        items += [hx(x) for x in colnames]
+    for i, r in enumerate(rows):
+        if rownames is not None:
+            items.append(hx(rownames[i]))
+        items += [hx(x) for x in r]
+    return ("tbl.rt %s %d %d %d %d %d %s" % (hx(sep), align, ncol, colnames is not None, rownames is not None,
+                                            len(rows), " ".join(items))).rstrip()
+
+
+def gen_table(rng, tier):
+    thorough = tier == "thorough"
+    ops = []
+    seps = ["\t", ",", ";", " ", "|", ":"]
+    words = ["a", "b", "1.5", "-3", "x y", "NA", "A_1", "é".encode("utf-8").decode("latin-1"), "0", "gene", "v=2", "(q)"]
+
+    def cell(rng, sep, kind):
+        r = rng.random()
+        if kind == "valid":
+            w = rng.choice(words)
+            if r < 0.08:
+                w = ""                                   # empty cell (fine except at the start of a line)
+            elif r < 0.16:
+                w = " " + w if rng.random() < 0.5 else w + " "   # blanks around: kept by the reader
+            elif r < 0.20:
+                w = " "
+            return w.replace(sep, "_")
+        # malformed: separator / newline / blank inside
+        w = rng.choice(words)
+        return rng.choice([w + sep + "z", w + "\n" + "z", "", " ", sep, "\n", w + "\r", "\t"])
+
+    def names(rng, k, prefix, sep):
+        base = [prefix + str(i) for i in range(k)]
+        if rng.random() < 0.3:
+            base = [rng.choice(words).replace(sep, "_") + str(i) for i in range(k)]
+        return base
+
+    # every shape up to 6x6 (quick: up to 4x4 + a sample), with/without row and column names, all
+    # separators, both header alignments
+    shapes = [(r, c) for r in range(0, 7) for c in range(0, 7)]
+    if not thorough:
+        shapes = [(r, c) for (r, c) in shapes if (r <= 4 and c <= 4) or rng.random() < 0.4]
+    for (nr, nc) in shapes:
+        for hascol in (0, 1):
+            for hasrow in (0, 1):
+                for rep in range(3 if thorough else 1):
+                    sep = rng.choice(seps)
+                    align = rng.randint(0, 1)
+                    rows = [[cell(rng, sep, "valid") for _ in range(nc)] for _ in range(nr)]
+                    if rng.random() < 0.7:               # make most tables satisfy "first item non-empty"
+                        for r in rows:
+                            if r and r[0].strip() == "":
+                                r[0] = "c"
+                    cn = names(rng, nc, "C", sep) if hascol else None
+                    rn = names(rng, nr, "r", sep) if hasrow else None
+                    ops.append(tbl_op(sep, align, nc, cn, rn, rows))
+    # random tables, one side condition broken in a third of them
+    n = 6000 if thorough else 900
+    for i in range(n):
+        nr, nc = rng.randint(0, 6), rng.randint(1, 6)
+        sep = rng.choice(seps) if rng.random() < 0.9 else rng.choice([", ", "ab", "", "\n", "\t\t"])
+        hascol, hasrow = rng.random() < 0.6, rng.random() < 0.5
+        rows = [[cell(rng, sep if sep else ",", "valid") for _ in range(nc)] for _ in range(nr)]
+        for r in rows:
+            if r[0].strip() == "" and rng.random() < 0.8:
+                r[0] = "c"
+        cn = names(rng, nc, "C", sep if sep else ",") if hascol else None
+        rn = names(rng, nr, "r", sep if sep else ",") if hasrow else None
+        if i % 3 == 2:
+            k = rng.randint(0, 4)
+            if k == 0 and nr:
+                rows[rng.randrange(nr)][rng.randrange(nc)] = cell(rng, sep if sep else ",", "bad")
+            elif k == 1 and cn:
+                cn[rng.randrange(nc)] = rng.choice([cell(rng, sep if sep else ",", "bad"), cn[0]])
+            elif k == 2 and rn:
+                rn[rng.randrange(nr)] = rng.choice([cell(rng, sep if sep else ",", "bad"), rn[0]])
+            elif k == 3 and nr:
+                rows[rng.randrange(nr)][0] = rng.choice(["", " ", "\t"])
+            elif nr:
+                rows = rows[:1]
+        ops.append(tbl_op(sep, rng.randint(0, 1), nc, cn, rn, rows))
+    return chunk("tbl", ops, 200)
+
+
 # ------------------------------------------------------------------ entry points
 def generate(seed, tier):
     rng = random.Random(seed)
@@ -490,6 +577,7 @@ def generate(seed, tier):
     rng2 = random.Random(seed * 7919 + 17)          # round 2 streams: the earlier ones are unchanged
     cases += gen_tok(rng2, tier)
     cases += gen_nested(rng2, tier)
+    cases += gen_table(rng2, tier)
     return cases
 
 
